@@ -58,28 +58,38 @@ Theorem C04_load_paths_in_order : forall isfile bases url f,
 Proof. exact load_paths_in_order. Qed.
 Print Assumptions C04_load_paths_in_order.
 
-(* Context::find_file (after fix 3dfdada): the names of the relative url are scanned first; when none
-   exists and the relative url differs from the url, the names of the url unchanged are scanned *)
+(* Context::find_file (after the fixes 3dfdada and d80c9be): the url is normalized; the names of the
+   normalized relative url are scanned first; when none exists and it differs from the url, the names of
+   the url itself are scanned *)
 Theorem C04_fallback_unchanged : forall orc cur k u s,
   try_names orc s (find_names cur k u) =
-  match try_names orc s (probe_names (relative cur u) (cands k)) with
-  | FNone s' => if String.eqb (relative cur u) u then FNone s' else try_names orc s' (probe_names u (cands k))
+  let url := normalize u in
+  let rel := normalize (relative cur url) in
+  match try_names orc s (probe_names rel (cands k)) with
+  | FNone s' => if String.eqb rel url then FNone s' else try_names orc s' (probe_names url (cands k))
   | r => r
   end.
 Proof. exact find_file_two_phase. Qed.
 Print Assumptions C04_fallback_unchanged.
 
+(* a load depends on the url only through its normal form (`a`, `./a`, `d/../a`, `a//` are one url);
+   the theorems below are stated for urls written in normal form *)
+Theorem C04_spelling_irrelevant : forall cur k u v,
+  normalize u = normalize v -> find_names cur k u = find_names cur k v.
+Proof. intros cur k u v H. unfold find_names. rewrite H. reflexivity. Qed.
+Print Assumptions C04_spelling_irrelevant.
+
 (* importer at the root (its url has no directory part): the resolved file is one the text allows,
    over every file system and every list of load paths *)
 Theorem C04_root_allowed : forall isfile bases cur k url p f rd s',
-  fst (split_dir cur) = "" -> is_direct url = false ->
+  fst (split_dir cur) = "" -> normalize url = url -> is_direct url = false ->
   resolve isfile bases cur k url = FFound p f rd s' ->
   In f (allowed isfile (is_import k) (map dir_prefix bases) (fst (split_dir url)) (snd (split_dir url))).
 Proof. exact root_allowed. Qed.
 Print Assumptions C04_root_allowed.
 
 Theorem C04_root_none_iff : forall isfile bases cur k url,
-  fst (split_dir cur) = "" -> is_direct url = false ->
+  fst (split_dir cur) = "" -> normalize url = url -> is_direct url = false ->
   ((exists s', resolve isfile bases cur k url = FNone s') <->
    existing_gen isfile (map dir_prefix bases)
      (cand_names (is_import k) (fst (split_dir url)) (snd (split_dir url))) = []).
@@ -91,7 +101,8 @@ Print Assumptions C04_root_none_iff.
    the text allows with the places: the importing file's directory, then every load path in order.
    (Before fix 3dfdada this failed whenever the file existed only in a load path: F9.) *)
 Theorem C04_subdir_allowed : forall isfile b0 others cur k url p f rd s',
-  fst (split_dir cur) <> "" -> is_direct url = false -> is_direct (relative cur url) = false ->
+  fst (split_dir cur) <> "" -> normalize url = url -> normalize (relative cur url) = relative cur url ->
+  is_direct url = false -> is_direct (relative cur url) = false ->
   (forall bo c, In bo others -> In c (spec_cands (is_import k)) ->
       isfile (join bo (fst (split_dir cur) ++ spec_name (fst (split_dir url)) (snd (split_dir url)) c)%string) = None) ->
   resolve isfile (b0 :: others) cur k url = FFound p f rd s' ->
